@@ -129,7 +129,7 @@ func init() {
 			"out-of-range system-common arguments only need a well-formed message (statement)",
 			"loopback is observed through drivers/testdrv + midi.ListenTo with all listen options enabled",
 		},
-		Require: []string{"ctor_points", "loopback_deliveries", "accessor_calls", "out_of_range_points", "concurrent_ctor_points", "nil_pattern_calls", "conversations_with_replies_to_replies", "loopback_repeated_deliveries", "several_loopback_sessions"},
+		Require: []string{"ctor_points", "loopback_deliveries", "accessor_calls", "out_of_range_points", "concurrent_ctor_points", "nil_pattern_calls", "conversations_with_replies_to_replies", "loopback_repeated_deliveries", "several_loopback_sessions", "appends_to_returned_messages"},
 		Run:     runC07,
 	})
 }
@@ -513,6 +513,52 @@ func runC07(c *mon.Ctx) {
 		if bad > 0 {
 			c.Violation("ctor-concurrent", fmt.Sprintf("%d of %d messages constructed concurrently by 8 goroutines had the wrong encoding; first: %v", bad, 8*128*128, firstBad.Load()), nil, nil, firstBad.Load())
 		}
+	})
+
+	// returned messages belong to the caller: growing one with append (framing it with a time stamp, a running
+	// status continuation, an end marker) must not reach into messages constructed before or after it
+	c.Each("append-to-returned", c.N(40, 2000), func(i int64, r *mon.Rand) {
+		n := 30 + r.Intn(3000)
+		msgs := make([]midi.Message, n)
+		keep := make([][]byte, n)
+		want := make([][]byte, n)
+		for k := range msgs {
+			ch, a, b := r.Intn(16), r.Intn(128), r.Intn(128)
+			switch r.Intn(9) {
+			case 0:
+				msgs[k], want[k] = midi.NoteOn(uint8(ch), uint8(a), uint8(b)), ref.Channel2(0x9, ch, a, b)
+			case 1:
+				msgs[k], want[k] = midi.ControlChange(uint8(ch), uint8(a), uint8(b)), ref.Channel2(0xB, ch, a, b)
+			case 2:
+				msgs[k], want[k] = midi.ProgramChange(uint8(ch), uint8(a)), ref.Channel1(0xC, ch, a)
+			case 3:
+				msgs[k], want[k] = midi.Pitchbend(uint8(ch), int16(a*128+b-8192)), ref.PitchBend(ch, a*128+b-8192)
+			case 4:
+				msgs[k], want[k] = midi.NoteOffVelocity(uint8(ch), uint8(a), uint8(b)), ref.Channel2(0x8, ch, a, b)
+			case 5:
+				msgs[k], want[k] = midi.AfterTouch(uint8(ch), uint8(b)), ref.Channel1(0xD, ch, b)
+			case 6:
+				msgs[k], want[k] = midi.PolyAfterTouch(uint8(ch), uint8(a), uint8(b)), ref.Channel2(0xA, ch, a, b)
+			case 7:
+				msgs[k], want[k] = midi.SPP(uint16(a*128+b)), []byte{0xF2, byte(b), byte(a)}
+			default:
+				msgs[k], want[k] = midi.SongSelect(uint8(a)), []byte{0xF3, byte(a)}
+			}
+			keep[k] = append([]byte(nil), msgs[k]...)
+		}
+		order := r.Perm(n)
+		for _, k := range order {
+			_ = append(msgs[k], 0xF8, 0x00, 0xFF, 0x2F, 0x00)
+			c.Count("appends_to_returned_messages", 1)
+		}
+		c.Eval(1)
+		for q := range msgs {
+			if !bytes.Equal(msgs[q], keep[q]) || !bytes.Equal(keep[q], want[q]) {
+				c.Violation("constructed-message-changed", fmt.Sprintf("appending to other messages returned by the constructors changed message %d of %d, which the caller never touched: now % X, constructed as % X (MIDI 1.0 encoding % X)", q, n, []byte(msgs[q]), keep[q], want[q]), fmt.Sprintf("%d constructed messages, 5 bytes appended to each in a random order", n), mon.Hex(want[q]), mon.Hex(msgs[q]))
+				break
+			}
+		}
+		c.DistinctBytes([]byte(fmt.Sprint("append", i)))
 	})
 
 	// conversations over the loopback: the listener callback itself sends replies (and replies to replies,
